@@ -253,9 +253,13 @@ def run_cmd(cwd, args, plan=None, gc=None, streams="pipes", timeout=20, dump=Fal
     dump_path = os.path.join(priv, "dump%d.txt" % n)
     with open(plan_path, "w") as f:
         f.write(plan_text(plan or {}))
+    # every worker has a temporary directory of its own (two workers never meet in /tmp), and absolute paths below the
+    # worker's scratch directory are part of the simulated world
+    tmpdir = os.path.join(worker_dir(), "tmp")
+    os.makedirs(tmpdir, exist_ok=True)
     env = {"PATH": "/usr/bin:/bin", "RUST_BACKTRACE": "0", "NO_COLOR": "1", "LD_PRELOAD": SHIM,
            "SIMWORLD_PLAN": plan_path, "SIMWORLD_LOG": log_path, "MSCRIPT_VERIF_STATS": stats_path,
-           "HOME": "/nonexistent", "LANG": "C.UTF-8"}
+           "HOME": "/nonexistent", "LANG": "C.UTF-8", "TMPDIR": tmpdir, "SIMWORLD_ABS": worker_dir()}
     if gc:
         env["MSCRIPT_VERIF_GC"] = gc
     if dump:
